@@ -69,7 +69,8 @@ def check_view(out_lines, expected, t0, case, V, where):
         return
     for r, t in zip(shown, expected):
         want = (t - t0) / 1e6
-        if abs(float(r['time']) - want) > TOL:
+        tol = 10 ** -len(r['time'].split('.')[1]) + 1e-9       # one unit of the last displayed digit
+        if abs(float(r['time']) - want) > tol:
             V.append(Violation('times.value', case, {'where': where, 'expected': '%.4f' % want, 'observed': r['time'], 'line': r['text']}))
     # separators: exactly between consecutive shown messages whose gap exceeds one second
     i = -1
@@ -87,7 +88,7 @@ def check_view(out_lines, expected, t0, case, V, where):
             V.append(Violation('separator.missing', case, {'where': where, 'after_shown_index': j, 'gap_us': gap, 'observed': got}))
         elif not want and got:
             V.append(Violation('separator.spurious', case, {'where': where, 'after_shown_index': j, 'gap_us': gap, 'observed': got}))
-        elif want and abs(float(got[0]['gap']) - gap / 1e6) > TOL:
+        elif want and abs(float(got[0]['gap']) - gap / 1e6) > 10 ** -len(got[0]['gap'].split('.')[1]) + 1e-9:
             V.append(Violation('separator.value', case, {'where': where, 'gap_us': gap, 'observed': got[0]['gap']}))
 
 
